@@ -32,10 +32,10 @@ def plan(tier, seed):
     perms = list(itertools.permutations(n3))
     for k, so in enumerate(perms):
         specs.append(dict(kind='all3', names=n3, src_order=so, hashseed=k))
-    ns = 32 if tier == 'thorough' else 12
+    ns = 128 if tier == 'thorough' else 12
     for k in range(ns):
         specs.append(dict(kind='sampled', sub=k, n=4 + k % 2,
-                          rounds=500 if tier == 'thorough' else 300,
+                          rounds=6000 if tier == 'thorough' else 300,
                           hashseed=k))
     meta = dict(
         rule=RULE,
